@@ -31,12 +31,35 @@ def plan(tier, seed):
     return [{"seed": seed, "lo": i, "hi": min(n, i + BATCH), "tier": tier} for i in range(0, n, BATCH)]
 
 
-def one_program(seed, i, tier, res):
+def deep_or_wide(rng, g):
+    """Shapes the random generator rarely reaches: a chain of 20-40 nested actions, or one action with 100-160 children."""
+    if rng.random() < 0.5:
+        node = g.msg()
+        for _ in range(rng.randint(20, 40)):
+            a = g.act(99, force_style=rng.choice(["with", "ctx_finish", "run_finish"]))
+            a["children"] = [g.msg(), node] if rng.random() < 0.5 else [node]
+            a["outcome"] = "ok"
+            a.pop("exc", None)
+            node = a
+        return [node]
+    a = g.act(99, force_style="with")
+    a["outcome"] = "ok"
+    a.pop("exc", None)
+    a["children"] = [g.msg() for _ in range(rng.randint(100, 160))]
+    return [a]
+
+
+def one_program(seed, i, tier, res, gfields=None):
     rng = random.Random("%s:C01:%d" % (seed, i))
     big = rng.random() < (0.3 if tier == "thorough" else 0.1)
     g = gen.ProgGen(rng, max_depth=rng.choice([5, 6, 8]) if big else rng.choice([3, 4, 5]), max_nodes=150 if big else 40,
                     value_depth=rng.choice([1, 2, 3]), defer_p=0.3, extra_styles=("pre_created", "ctx_finish_inside"), reseed_p=0.03, reserved_field_p=0.1)
     prog = g.program()
+    shape = "random"
+    if rng.random() < 0.03:
+        g.budget = 10**6
+        prog = deep_or_wide(rng, g)
+        shape = "deep-or-wide"
     mode = rng.choice(["ab", "ab0", "a"])
     fd, path = tempfile.mkstemp(prefix="vf-c01-")
     os.close(fd)
@@ -52,23 +75,49 @@ def one_program(seed, i, tier, res):
         it = Interp()
         it.allow_defer = True
         it.explicit_loggers = True
+        # a second file destination joins in the middle of the program: it must receive exactly the rest
+        import io
+        late_file = io.BytesIO()
+        late = FileDestination(file=late_file)
+        join_at = rng.randrange(len(prog) + 1) if rng.random() < 0.3 else None
+        mark = [None]
         try:
-            forest = it.run(prog)
+            if join_at is None:
+                forest = it.run(prog)
+            else:
+                it.exec_children(prog[:join_at], None, None, top=True)
+                f.flush()
+                mark[0] = os.path.getsize(path)
+                add_destinations(late)
+                forest = it.run(prog[join_at:])
         finally:
             remove_destination(dest)
+            if mark[0] is not None:
+                remove_destination(late)
             f.close()
         with open(path, "rb") as rf:
             raw = rf.read()
     finally:
         os.unlink(path)
     problems = [v["msg"] for v in it.violations]
+    if mark[0] is not None and late_file.getvalue() != raw[mark[0]:]:
+        problems.append("a file destination added in the middle of the program received %d bytes, the first file got %d bytes from then on (contents %s)" % (
+            len(late_file.getvalue()), len(raw) - mark[0], "differ" if len(late_file.getvalue()) == len(raw) - mark[0] else "differ in length"))
     lines = raw.split(b"\n")
     if lines[-1] != b"":
         problems.append("file does not end with a newline")
     msgs = []
     for ln in lines[:-1]:
         try:
-            msgs.append(json.loads(ln.decode("utf-8")))
+            m = json.loads(ln.decode("utf-8"))
+            if gfields:
+                # global fields set for this process are on every message; they are not part of what the program logged
+                for k, v in gfields.items():
+                    if k not in m or m[k] != v:
+                        problems.append("message %s lacks global field %s=%r" % (m.get("task_level"), k, v))
+                        break
+                    del m[k]
+            msgs.append(m)
         except Exception as e:
             problems.append("line is not valid UTF-8 JSON: %r (%r)" % (ln[:200], e))
     try:
@@ -81,6 +130,9 @@ def one_program(seed, i, tier, res):
     res["evals"] += 1
     res["counters"]["messages_parsed"] = res["counters"].get("messages_parsed", 0) + len(msgs)
     res["counters"]["mode_" + mode] = res["counters"].get("mode_" + mode, 0) + 1
+    res["counters"]["shape_" + shape] = res["counters"].get("shape_" + shape, 0) + 1
+    res["counters"]["late_destination_joined"] = res["counters"].get("late_destination_joined", 0) + int(mark[0] is not None)
+    res["counters"]["programs_with_global_fields"] = res["counters"].get("programs_with_global_fields", 0) + int(bool(gfields))
     res["counters"]["failed_actions"] = res["counters"].get("failed_actions", 0) + st["failed"]
     res["counters"]["base_exception_failures"] = res["counters"].get("base_exception_failures", 0) + st["basefail"]
     res["counters"]["context_probes"] = res["counters"].get("context_probes", 0) + it.probes
@@ -98,8 +150,14 @@ def one_program(seed, i, tier, res):
 
 def run_case(spec):
     res = {"evals": 0, "nontrivial": [], "counters": {}, "violations": [], "sample": None}
+    gfields = None
+    if (spec["lo"] // BATCH) % 3 == 2:
+        # a third of the processes have global fields set throughout
+        from eliot import add_global_fields
+        gfields = {"g_host": "h\u00e9st", "g_pid": 4242, "g_tags": ["a", {"b": None}]}
+        add_global_fields(**gfields)
     for i in range(spec["lo"], spec["hi"]):
-        one_program(spec["seed"], i, spec["tier"], res)
+        one_program(spec["seed"], i, spec["tier"], res, gfields)
     return res
 
 
